@@ -292,3 +292,205 @@ EXPLANATION = (
     'exceptions outside the decoder region [X].'
 )
 RULES = [escape, guard]
+
+
+# ------------------------------------------------------------------ C15.CONTAINERS
+PARTIAL_CALLS = {'pop', 'remove', 'popleft', 'popitem', 'index'}
+INVARIANTS = {
+    # (function qual, container attr): reason, rule that decides the invariant
+    ('QueryScheduler._process_ready_types', '_next_scheduled_for_alias'): 'every live heap entry has a schedule-map entry (C10.PAIR: push stores the entry, cancel/supersede flags the heap entry and removes the map entry together)',
+    ('ServiceRegistry._async_get_by_index', '_services'): 'names in an index bucket are keys of the service table (C03.INDEX: add/remove maintain the three indexes together)',
+    ('_QueryResponse.answers', '_additionals'): 'every record put into an answer bucket was first stored in the additionals table (checked below)',
+    ('DNSOutgoing._replace_short', 'data'): 'the index was taken as len(self.data) immediately before the placeholder was appended (C14.ACCOUNT)',
+}
+
+
+def _container_sites(ctx: Any, f: FuncInfo) -> List[Tuple[ast.AST, str, str, ast.AST, Optional[ast.AST]]]:
+    """(node, container attr, operation, container expr, key expr) for partial operations on self.<attr> containers (or local aliases)."""
+    me = f.params[0] if f.params else 'self'
+    out = []
+    aliases: Dict[str, str] = {}
+    for st in walk_local_ordered(f.node):
+        if isinstance(st, ast.Assign) and isinstance(st.targets[0], ast.Name) and self_attr(st.value, me):
+            aliases[st.targets[0].id] = st.value.attr
+
+    def attr_of(e: ast.AST) -> Optional[str]:
+        a = self_attr(e, me)
+        if a:
+            return a
+        if isinstance(e, ast.Name) and e.id in aliases:
+            return aliases[e.id]
+        return None
+
+    for n in walk_local_ordered(f.node):
+        if isinstance(n, ast.Subscript) and not isinstance(n.slice, ast.Slice) and isinstance(n.ctx, (ast.Load, ast.Del)):
+            a = attr_of(n.value)
+            if a:
+                td = ctx.ty.type_of(f.module.name, n.value)
+                tn = td[1] if td and td[0] == 'inst' else ''
+                if tn in ('builtins.dict', 'builtins.list', 'collections.deque', 'collections.OrderedDict'):
+                    out.append((n, a, 'del' if isinstance(n.ctx, ast.Del) else 'load', n.value, n.slice))
+        elif isinstance(n, ast.Call) and isinstance(n.func, ast.Attribute) and n.func.attr in PARTIAL_CALLS:
+            a = attr_of(n.func.value)
+            if a:
+                td = ctx.ty.type_of(f.module.name, n.func.value)
+                tn = td[1] if td and td[0] == 'inst' else ''
+                if tn in ('builtins.dict', 'builtins.list', 'collections.deque', 'builtins.set') and not (n.func.attr == 'pop' and tn == 'builtins.dict' and len(n.args) >= 2):
+                    out.append((n, a, n.func.attr, n.func.value, n.args[0] if n.args else None))
+    return out
+
+
+def _discharged_locally(ctx: Any, f: FuncInfo, node: ast.AST, cont: ast.AST, key: Optional[ast.AST], op: str) -> Tuple[bool, str]:
+    cfg = cfg_of(f.node)
+    host = next((n for n in cfg.nodes if any(x is node for e in n.exprs() for x in ast.walk(e))), None)
+    if host is None:
+        return False, 'site not found in the CFG'
+    ctext = norm(cont)
+    ktext = norm(key) if key is not None else ''
+    me = f.params[0] if f.params else 'self'
+    cattr = self_attr(cont, me)
+    if cattr is None and isinstance(cont, ast.Name):
+        d0 = [st.value for st in walk_local_ordered(f.node) if isinstance(st, ast.Assign) and norm(st.targets[0]) == cont.id]
+        if len(d0) == 1:
+            cattr = self_attr(d0[0], me)
+
+    def same_cont(e: ast.AST) -> bool:
+        if norm(e) == ctext:
+            return True
+        # alias of the same attribute
+        if isinstance(e, ast.Name):
+            d = [st.value for st in walk_local_ordered(f.node) if isinstance(st, ast.Assign) and norm(st.targets[0]) == e.id]
+            return len(d) == 1 and (norm(d[0]) == ctext or (cattr is not None and self_attr(d[0], me) == cattr))
+        return cattr is not None and self_attr(e, me) == cattr
+
+    def establishes(t: ast.AST, arm: bool) -> bool:
+        """Does test `t` taking `arm` establish that the access is defined?"""
+        if isinstance(t, ast.UnaryOp) and isinstance(t.op, ast.Not):
+            return establishes(t.operand, not arm)
+        if isinstance(t, ast.BoolOp):
+            if isinstance(t.op, ast.And) and arm:
+                return any(establishes(v, True) for v in t.values)
+            if isinstance(t.op, ast.Or) and not arm:
+                return any(establishes(v, False) for v in t.values)
+            return False
+        if isinstance(t, ast.Compare) and len(t.ops) == 1:
+            l, o, r = t.left, t.ops[0], t.comparators[0]
+            if isinstance(o, ast.In) and same_cont(r) and norm(l) == ktext:
+                return arm
+            if isinstance(o, ast.NotIn) and same_cont(r) and (norm(l) == ktext or op in ('load', 'remove') and ktext in ('0', '-1')):
+                return not arm
+            if isinstance(o, ast.In) and same_cont(r) and ktext in ('0', '-1'):
+                return arm  # something is in it: it is non-empty
+            # len(c) > k / len(c) >= 1 / len(c) != 0
+            for a_, b_, flip in ((l, r, False), (r, l, True)):
+                if isinstance(a_, ast.Call) and norm(a_.func) == 'len' and a_.args and same_cont(a_.args[0]):
+                    okc, kv = ctx.prog.try_fold(f.module, b_)
+                    if okc and isinstance(kv, int):
+                        oo = type(o)
+                        if flip:
+                            oo = {ast.Lt: ast.Gt, ast.Gt: ast.Lt, ast.LtE: ast.GtE, ast.GtE: ast.LtE}.get(oo, oo)
+                        if oo is ast.Gt and kv >= 0:
+                            return arm
+                        if oo is ast.GtE and kv >= 1:
+                            return arm
+                        if oo is ast.NotEq and kv == 0:
+                            return arm
+                        if oo is ast.Eq and kv == 0:
+                            return not arm
+                        if oo is ast.Eq and kv >= 1:
+                            return arm
+            # current = c.get(k); current is not None
+            for a_, b_ in ((l, r), (r, l)):
+                if isinstance(b_, ast.Constant) and b_.value is None and isinstance(a_, ast.Name):
+                    d = [st.value for st in walk_local_ordered(f.node) if isinstance(st, ast.Assign) and norm(st.targets[0]) == a_.id]
+                    if len(d) == 1 and isinstance(d[0], ast.Call) and call_name(d[0]) == 'get' and same_cont(d[0].func.value) and d[0].args and norm(d[0].args[0]) == ktext:
+                        return arm if isinstance(o, ast.IsNot) else (not arm if isinstance(o, ast.Is) else False)
+            return False
+        if isinstance(t, ast.Call) and norm(t.func) == 'len' and t.args and same_cont(t.args[0]):
+            return arm
+        if same_cont(t):
+            return arm  # truthiness of the container
+        if isinstance(t, ast.Name):
+            d = [st.value for st in walk_local_ordered(f.node) if isinstance(st, ast.Assign) and norm(st.targets[0]) == t.id]
+            if len(d) == 1 and isinstance(d[0], ast.Call) and call_name(d[0]) in ('get', 'pop') and same_cont(d[0].func.value) and d[0].args and norm(d[0].args[0]) == ktext:
+                return arm
+        return False
+
+    for t in cfg.nodes:
+        if t.kind in ('test', 'loop_test') and t is not host and cfg.dominates(t, host):
+            for arm in (True, False):
+                if establishes(t.ast, arm):
+                    arm_nodes = [s for s, lab in t.succ if lab is arm]
+                    if arm_nodes and all(s is host or cfg.dominates(s, host) for s in arm_nodes):
+                        return True, f'guarded by `{norm(t.ast)[:60]}`'
+        if t is host and t.kind in ('test', 'loop_test') and isinstance(t.ast, ast.BoolOp) and isinstance(t.ast.op, ast.And):
+            # short-circuit inside the same condition: an earlier conjunct guards a later one
+            vals = t.ast.values
+            for i, v in enumerate(vals):
+                if any(x is node for x in ast.walk(v)) and any(establishes(u, True) for u in vals[:i]):
+                    return True, f'guarded by an earlier conjunct of `{norm(t.ast)[:60]}`'
+    # present-or-stored: `if k not in c: c[k] = ...` before the access (the absent arm stores the key)
+    for t in cfg.nodes:
+        tt, neg = t.ast, False
+        while isinstance(tt, ast.UnaryOp) and isinstance(tt.op, ast.Not):
+            tt, neg = tt.operand, not neg
+        if t.kind == 'test' and cfg.dominates(t, host) and isinstance(tt, ast.Compare) and len(tt.ops) == 1 and isinstance(tt.ops[0], (ast.In, ast.NotIn)) and same_cont(tt.comparators[0]) and norm(tt.left) == ktext:
+            absent_arm = isinstance(tt.ops[0], ast.NotIn) != neg
+            starts = [s_ for s_, lab in t.succ if lab is absent_arm]
+            stores_k = lambda n: n.kind == 'stmt' and isinstance(n.ast, ast.Assign) and any(isinstance(tg, ast.Subscript) and same_cont(tg.value) and norm(tg.slice) == ktext for tg in n.ast.targets)  # noqa: E731
+            if starts and all(stores_k(s_) or cfg.path_avoiding(s_, lambda n: n is host, stores_k, skip_start=False) is None for s_ in starts):
+                return True, f'`{norm(t.ast)[:50]}`: the key is stored on the absent arm before the access'
+    # the key iterates over the container (or over a list collected from it in this function)
+    if key is not None and isinstance(key, ast.Name):
+        for lp in walk_local_ordered(f.node):
+            if isinstance(lp, (ast.For, ast.comprehension)) and any(isinstance(x, ast.Name) and x.id == key.id for x in ast.walk(lp.target)):
+                it = lp.iter
+                srcs = [it]
+                if isinstance(it, ast.Name):
+                    srcs = [st.value for st in walk_local_ordered(f.node) if isinstance(st, (ast.Assign, ast.AnnAssign)) and norm(st.targets[0] if isinstance(st, ast.Assign) else st.target) == it.id and st.value is not None]
+                    # a list filled inside a loop over the container
+                    for lp2 in walk_local_ordered(f.node):
+                        if isinstance(lp2, ast.For) and any(same_cont(x) for x in ast.walk(lp2.iter)) and any(isinstance(c, ast.Call) and call_name(c) == 'append' and norm(c.func.value) == it.id for c in ast.walk(lp2)):
+                            return True, f'`{key.id}` comes from a list collected while iterating the container'
+                if any(any(same_cont(x) for x in ast.walk(s_)) for s_ in srcs):
+                    return True, f'`{key.id}` iterates over the container'
+    return False, 'no dominating presence test, and the key does not iterate the container'
+
+
+@rule('C15.CONTAINERS', 'N', expect_min=10)
+def containers(ctx: Any) -> List[Ob]:
+    """Stateful containers touched on the event-loop path are accessed totally: every partial
+    operation (dict load / del, pop without default, [0] / [-1], remove, popleft) on an instance
+    container, in any function reachable from the datagram-driven entry points outside the decoder,
+    is dominated by a presence test, or its key iterates the container, or it relies on an invariant
+    that another rule decides -- so no KeyError / IndexError can reach the event loop from them."""
+    R = 'C15.CONTAINERS'
+    roots = entry_points(ctx)
+    _, reg = region(ctx)
+    decoder = {f.full for f in reg}
+    scope = [f for f in ctx.cg.closure(roots) if f.full not in decoder and f.cls is not None]
+    obs: List[Ob] = []
+    for f in sorted(scope, key=lambda x: x.full):
+        for node, attr, op, cont, key in _container_sites(ctx, f):
+            inv = INVARIANTS.get((f.qual, attr))
+            if inv is not None:
+                obs.append(ob(R, f, node, f'access relies on an invariant decided elsewhere: {inv}', True))
+                continue
+            ok, why = _discharged_locally(ctx, f, node, cont, key, op)
+            obs.append(ob(R, f, node, f'partial operation `{op}` on self.{attr} cannot fail (no KeyError/IndexError into the event loop)', ok, why))
+    # side condition of the _additionals invariant: every add to an answer bucket is preceded by storing the same keys
+    qr = ctx.prog.cls('zeroconf._handlers.query_handler._QueryResponse')
+    for m in qr.methods.values():
+        me = m.params[0] if m.params else 'self'
+        adds = [c for c in walk_local_ordered(m.node) if isinstance(c, ast.Call) and call_name(c) in ('add', 'update') and isinstance(c.func, ast.Attribute) and self_attr(c.func.value, me) in ('_ucast', '_mcast_now', '_mcast_aggregate', '_mcast_aggregate_last_second')]
+        if not adds:
+            continue
+        cfg = cfg_of(m.node)
+        stores = [n for n in cfg.nodes if (n.kind == 'stmt' and isinstance(n.ast, ast.Assign) and isinstance(n.ast.targets[0], ast.Subscript) and self_attr(n.ast.targets[0].value, me) == '_additionals') or any(call_name(c) == 'update' and isinstance(c.func, ast.Attribute) and self_attr(c.func.value, me) == '_additionals' for c in n.calls())]
+        for a in adds:
+            an = next(n for n in cfg.nodes if any(c is a for c in n.calls()))
+            obs.append(ob(R, m, a, 'a record enters an answer bucket only after it was stored in the additionals table', cfg.dominated_by_any(an, stores)))
+    return obs
+
+
+RULES.append(containers)
